@@ -64,7 +64,13 @@ func genAtomicWrite(r *Rng, tier string, idx int, args map[string]string) []stri
 			if r.Chance(3, 4) {
 				lim = r.Intn(21)
 			}
-			ops = append(ops, "hsave "+Itoa(r.Intn(5))+" "+Itoa(lim))
+			op := "hsave " + Itoa(r.Intn(5)) + " " + Itoa(lim)
+			if lim >= 1 && r.Chance(1, 2) {
+				// the limit is lifted a moment after the write hit it (space freed, quota raised): a writer that tries again
+				// must not leave the bytes of its first attempt in the file; a writer that does not must report the failure
+				op += " transient"
+			}
+			ops = append(ops, op)
 			continue
 		}
 		maxOld := 6
@@ -235,7 +241,31 @@ func execAtomicWrite(ops []string, mon *Mon) []string {
 				mon.Tag("history-no-fault")
 			}
 			awLimit(lim)
+			done := make(chan struct{})
+			if len(f) > 3 && f[3] == "transient" {
+				mon.Tag("history-write-cut-transient")
+				go func() {
+					for {
+						select {
+						case <-done:
+							return
+						default:
+						}
+						if ents, e := os.ReadDir(dir); e == nil {
+							for _, en := range ents {
+								if info, e2 := en.Info(); e2 == nil && en.Name() != "search_history.json" && info.Size() >= lim {
+									time.Sleep(20 * time.Millisecond) // the failing write call has returned by now
+									awLimit(-1)
+									return
+								}
+							}
+						}
+						time.Sleep(200 * time.Microsecond)
+					}
+				}()
+			}
 			err := sh.Save()
+			close(done)
 			awLimit(-1)
 			got := awRead(path)
 			cls := "other"
